@@ -1279,3 +1279,22 @@ def u1_unit_directions(ctx):
             else:
                 ctx.undecided("C14-U1", s, f"{key[1]}: the norm of the direction multiplied by the radius is not derivable",
                               f"`{au.src(node)[:120]}`: `{detail[:100]}` is neither proved to be a unit vector nor refuted")
+
+
+
+# ----------------------------------------------------------------------- generic families (msa/rules/generic.py)
+_run_specific = run
+
+
+def run(ctx):
+    _run_specific(ctx)
+    from ..rules import generic
+    generic.apply(ctx, "C14", stale_modules=())
+
+
+def _generic_rule_texts():
+    from ..rules import generic
+    return generic.rule_texts("C14", stale=False)
+
+
+RULES.update(_generic_rule_texts())
